@@ -65,6 +65,40 @@ class MutationOnlyRep(Representation, RepresentationWithMutation):
         return self.inner._new()
 
 
+class ByProgram(tuple):
+    """genotype (uid, key) that compares by the PROGRAM (key) alone, the way tree genotypes compare structurally; the uid
+    is the harness's bookkeeping"""
+
+    def __eq__(self, other):
+        return isinstance(other, tuple) and len(other) == 2 and self[1] == other[1]
+
+    def __ne__(self, other):
+        return not self.__eq__(other)
+
+    def __hash__(self):
+        return hash(self[1])
+
+
+class StructuralRep(ScriptRep):
+    """ScriptRep whose genotypes compare structurally: with a single key the search space holds exactly one program
+    (every mutation re-draws what was already there, every crossover swaps equal material)"""
+
+    def _new(self):
+        return ByProgram(super()._new())
+
+
+class Ph(tuple):
+    """a phenotype whose pretty-printer does not tell programs apart (a user's `__str__` that abbreviates)"""
+
+    def __str__(self):
+        return "<program>"
+
+
+class LossyStrRep(ScriptRep):
+    def genotype_to_phenotype(self, genotype):
+        return Ph(genotype)
+
+
 def mk_ind(uid: int, key: Any, rep: Representation | None = None) -> Individual:
     return Individual(genotype=(uid, key), representation=rep or ScriptRep([0]))
 
